@@ -158,13 +158,21 @@ class SchemaSpace(statespace.Space):
         for t in S.pool(core[1])[:14]:
           ops.append(('', 'in.append', t))
           ops.append(('', 'in.setitem0', t))
-        ops += [('', 'in.pop'), ('', 'in.clear'), ('', 'in.del0'), ('', 'in.imul', 2), ('', 'in.delslice')]
+          # the same nested list written from its ancestor (a key path into the list) or with an insertion marker
+          ops.append(('', 'anc.rebind', 0, t))
+          ops.append(('', 'anc.rebind', 99, t))
+          ops.append(('', 'anc.rebind_ins', 0, t))
+          ops.append(('', 'in.setitem_ins', t))
+        ops += [('', 'in.pop'), ('', 'in.clear'), ('', 'in.del0'), ('', 'in.imul', 2), ('', 'in.delslice'),
+                ('', 'anc.rebind', 0, 'MISSING')]
       elif isinstance(inner, pg.Dict) and core[0] in ('dict', 'ddict'):
         k0 = core[1][0][0] if core[0] == 'dict' and core[1] else 'k1'
         e0 = core[1][0][1] if core[0] == 'dict' and core[1] else (core[2] if core[0] == 'ddict' else ('any',))
         for t in S.pool(e0)[:14]:
           ops.append(('', 'in.set', k0, t))
-        ops += [('', 'in.del', k0), ('', 'in.set', 'x', 0), ('', 'in.clear'), ('', 'in.pop', k0)]
+          ops.append(('', 'anc.rebind', k0, t))
+        ops += [('', 'in.del', k0), ('', 'in.set', 'x', 0), ('', 'in.clear'), ('', 'in.pop', k0),
+                ('', 'anc.rebind', k0, 'MISSING'), ('', 'anc.rebind', 'x', 0)]
     return ops
 
   def apply(self, w, op, rec, trace):
@@ -188,7 +196,7 @@ class SchemaSpace(statespace.Space):
     base = f'{kind}/{op[1]}' + (f'[{sc}]' if sc else '') + f'/{S.strip(d)[0][0]}'
     bad = False
     if err is not None:
-      ok_classes = REJ + (IndexError,) if kind == 'list' or op[1].startswith('in.') else REJ
+      ok_classes = REJ + (IndexError,) if kind == 'list' or op[1].startswith(('in.', 'anc.')) else REJ
       if not isinstance(err, ok_classes):
         rec.viol(f'rejected-with-wrong-error:{out}/{base}', f'{op!r} on {before_view} raised {out}: {err}', trace)
         bad = True
@@ -214,6 +222,9 @@ class SchemaSpace(statespace.Space):
         return repr(view(x.sym_getattr(op[2])))
       if kind == 'list' and op[1] in ('append', 'insert', 'rebind_ins', 'iadd', 'extend'):
         return repr(view(x)) if op[1] in ('append', 'insert', 'rebind_ins') else None
+      if op[1].startswith('anc.') or op[1] == 'in.setitem_ins':
+        inner = _inner(x, kind)
+        return None if inner is None else repr(view(inner))
     except Exception:  # pylint: disable=broad-except
       return None
     return None
@@ -283,6 +294,13 @@ class SchemaSpace(statespace.Space):
     if k == 'reverse':
       return x.reverse()
     inner = _inner(x, kind)
+    if k in ('anc.rebind', 'anc.rebind_ins'):
+      head = pg.KeyPath(0) if kind == 'list' else pg.KeyPath('f')
+      val = v(op[3])
+      return x.rebind({pg.KeyPath(op[2], head): pg.Insertion(val) if k == 'anc.rebind_ins' else val})
+    if k == 'in.setitem_ins':
+      inner[0] = pg.Insertion(v(op[2]))
+      return None
     if k == 'in.append':
       return inner.append(v(op[2]))
     if k == 'in.setitem0':
